@@ -33,6 +33,8 @@ def syntax_variants(r):
         ("enum-explicit-defaults", mk(enum_as_map=1.0)),
         ("hex-values", mk(enum_as_map=1.0, hex_values=1.0)),
         ("whitespace-and-remarks", mk(extra_ws=0.7)),
+        ("self-qualified-references", mk(self_qualify=1.0)),
+        ("some-self-qualified-references", mk(self_qualify=0.4, expanded=0.5)),
         ("everything", mk(expanded=0.6, optional_as_list=0.5, alias_spelling=0.5, quote=0.4, flow=0.4, enum_as_map=0.5, hex_values=0.5, extra_ws=0.4)),
         ("everything-2", mk(expanded=1.0, optional_as_list=1.0, alias_spelling=1.0, quote=0.5, flow=0.0, enum_as_map=1.0)),
     ]
@@ -61,7 +63,7 @@ def run(ctx):
     quick = ctx.tier == "quick"
     home = os.path.join(ctx.workdir, "home")
     os.makedirs(home, exist_ok=True)
-    ctx.rule = ("seeded ASTs (ser-corpus with imports + evolution bases) x 10 pure-syntax spellings (byte-identical generated trees demanded) + 4 layout variants "
+    ctx.rule = ("seeded ASTs (ser-corpus with imports + evolution bases) x 12 pure-syntax spellings (byte-identical generated trees demanded) + 4 layout variants "
                 "(identical schema literals, identical bytes written by the generated Python code for the same reference streams); the same with one rule violation "
                 "injected (accept/reject must agree). distinct = (AST, variant).")
     ctx.assumptions = ["the reference spelling is the harness's default short spelling", "documentation comments are held fixed (they are part of the generated code)"]
@@ -85,6 +87,14 @@ def run(ctx):
     fixed = [Rec("FixedOpt", [("a", V(oi, 3)), ("b", P("int32"))]), Rec("FixedOptArr", [("a", A(oi, ((None, 2), (None, 2)))), ("b", P("float64"))]),
              Rec("FixedUnion", [("a", V(ui, 2)), ("b", P("uint8"))])]
     asts.append(("fixedzoo", Pkg("FixedZoo", fixed + [Proto("FixedP", [("x", N("FixedOpt")), ("y", N("FixedOptArr")), ("z", S(N("FixedUnion")))])])))
+    # the same union once under a name and once anonymously; definition order decides which one a generator meets first
+    u2 = lambda: U(((None, P("int32")), (None, P("float32"))))
+    u3 = lambda: U(((None, P("string")), (None, N("UzRec"))), True)
+    for i, order in enumerate([("UzRec", "UzUser", "UzReading", "UzMaybe", "UzP"), ("UzReading", "UzMaybe", "UzRec", "UzUser", "UzP"), ("UzP", "UzMaybe", "UzUser", "UzReading", "UzRec")]):
+        ds = {"UzRec": Rec("UzRec", [("q", P("int32"))]), "UzUser": Rec("UzUser", [("value", u2()), ("other", u3()), ("named", N("UzReading")), ("m", N("UzMaybe"))]),
+              "UzReading": Al("UzReading", u2()), "UzMaybe": Al("UzMaybe", u3()),
+              "UzP": Proto("UzP", [("a", N("UzUser")), ("b", S(u2())), ("c", N("UzReading")), ("d", S(N("UzMaybe")))])}
+        asts.append(("unionzoo%d" % i, Pkg("UnionZoo", [ds[n] for n in order])))
     asts.append(("nestingzoo", Pkg("ZooPkg", [zoo, Proto("ZooP", [("z", N("Zoo")), ("s", S(V(V(oi)))), ("o", Opt(V(oi))), ("m", M(P("string"), V(oi)))])])))
 
     def one(item):
